@@ -6,7 +6,8 @@
  *   (1) file representation == independent byte-order reference (explicit shifts),
  *   (2) round trip back to memory is bit-identical,
  *   (3) in-place conversion == out-of-place conversion,
- *   (4) strided conversion (source and destination strides >= element size) == contiguous.
+ *   (4) strided conversion (source and destination strides >= element size) == contiguous,
+ *   (5) in-place conversion with a source stride larger than the destination stride (packing) == out-of-place.
  * 64-bit floats: structured + pseudo-random patterns (all single bits, exponent boundaries,
  * denormals, NaN payloads).
  *
@@ -153,6 +154,25 @@ check_block(const nt_t *nt, int flv, const uint8_t *mem, uint32_t n, int extra_m
             st->evals += m;
             free(src);
             free(dst);
+        }
+        /* in place with different strides: packing the first field of wider records (source stride larger
+           than destination stride: every element is read before its place is overwritten) */
+        for (int dir = 0; dir < 2; dir++) {
+            int      ss = 3 * sz, ds = sz;
+            uint32_t m  = n > 2048 ? 2048 : n;
+            uint8_t *buf = malloc((size_t)m * ss + 16);
+            memset(buf, 0x77, (size_t)m * ss + 16);
+            const uint8_t *in  = dir == 0 ? mem : file;
+            const uint8_t *exp = dir == 0 ? file : mem;
+            for (uint32_t i = 0; i < m; i++)
+                memcpy(buf + (size_t)i * ss, in + (size_t)i * sz, sz);
+            DFKconvert(buf, buf, code, (int32)m, dir == 0 ? DFACC_WRITE : DFACC_READ, ss, ds);
+            if (memcmp(buf, exp, (size_t)m * sz))
+                note(st, dir == 0 ? "in-place strided (packing) write conversion differs from out-of-place"
+                                  : "in-place strided (packing) read conversion differs from out-of-place",
+                     nt, flv, 0);
+            st->evals += m;
+            free(buf);
         }
     }
     free(file);
